@@ -37,8 +37,8 @@ func cases(tier string, seed int64) []fw.Case {
 	nmm, bases, multi := 16, 3, 60
 	nids := 6
 	if tier == "thorough" {
-		nmm, bases, multi = 48, 8, 150
-		nids = 24
+		nmm, bases, multi = 40, 6, 120
+		nids = 16
 	}
 	for i := 0; i < nmm; i++ {
 		cs = append(cs, fw.MkCase(fmt.Sprintf("mm-%03d", i), seed*1000003+int64(i), mmParams{Mode: "mm", Bases: bases, Multi: multi}))
@@ -66,6 +66,6 @@ func init() {
 		Cases:       cases,
 		Run:         run,
 		MinCounters: []string{"pairs_delivered_changed", "calibration_ok", "pairs/Batch", "ids_issued", "ids_replaced_in_place", "ids_removed"},
-		TimeoutS:    900,
+		TimeoutS:    2400,
 	})
 }
